@@ -70,6 +70,14 @@ type Ctx struct {
 	memo     map[string]interface{}
 }
 
+// readFile reads a repository file, honouring the in-memory overlay of a self-test variant.
+func (c *Ctx) readFile(path string) ([]byte, error) {
+	if b, ok := c.Overlay[path]; ok {
+		return b, nil
+	}
+	return os.ReadFile(path)
+}
+
 func NewCtx(repo string) *Ctx {
 	return &Ctx{RepoDir: repo, memo: map[string]interface{}{}}
 }
